@@ -9,6 +9,11 @@ from .. import gen, ref
 from ..harness import tol_close, short
 
 
+def tl(x):
+    """spike times as a plain list, whatever container the code under test left in `.spikes`"""
+    return np.asarray(x).tolist()
+
+
 def env_repo():
     from .. import env
     return env.REPO
@@ -429,8 +434,8 @@ def result_equal(ps, r1, r2, tol=1e-12):
         if not isinstance(r2, ps.SpikeTrain):
             return "type mismatch"
         if r1.t_start != r2.t_start or r1.t_end != r2.t_end or not np.array_equal(r1.spikes, r2.spikes):
-            return "spike trains differ: %s [%r,%r] vs %s [%r,%r]" % (short(r1.spikes.tolist()), r1.t_start, r1.t_end,
-                                                                      short(r2.spikes.tolist()), r2.t_start, r2.t_end)
+            return "spike trains differ: %s [%r,%r] vs %s [%r,%r]" % (short(tl(r1.spikes)), r1.t_start, r1.t_end,
+                                                                      short(tl(r2.spikes)), r2.t_start, r2.t_end)
         return None
     for cls, names, exact in ((ps.PieceWiseConstFunc, ("x", "y"), ("x",)), (ps.PieceWiseLinFunc, ("x", "y1", "y2"), ("x",)),
                               (ps.DiscreteFunc, ("x", "y", "mp"), ("x", "mp"))):
